@@ -137,6 +137,10 @@ pub fn run_case(ctx: &mut CaseCtx) -> CaseResult {
         rng.range(5, 60)
     } as usize;
     let mut ops = Vec::with_capacity(nops);
+    // now and then the clock is set back between operations (an NTP step, a manual correction):
+    // names are then no longer chronological, so only "every accepted line exactly once,
+    // in whichever file" is judged
+    let steps_back = virtual_clock && rng.chance(1, 8);
     let advances: [i64; 8] = [
         0,
         1_000_000,
@@ -158,6 +162,9 @@ pub fn run_case(ctx: &mut CaseCtx) -> CaseResult {
                 } else {
                     Op::Flush
                 }
+            }
+            _ if steps_back && rng.chance(1, 2) => {
+                Op::Advance(*rng.pick(&[-1_000_000_000i64, -2_000_000_000, -3_600_000_000_000, -400_000_000]))
             }
             _ => Op::Advance(*rng.pick(&advances)),
         };
@@ -261,6 +268,45 @@ pub fn run_case(ctx: &mut CaseCtx) -> CaseResult {
             }
             Ok(got) => {
                 res.count("bytes_compared", got.len() as u64);
+                if steps_back {
+                    let le = cfg.line_ending();
+                    let split = |v: &[u8]| -> Vec<Vec<u8>> {
+                        let mut out = Vec::new();
+                        let mut start = 0;
+                        let mut i = 0;
+                        while i + le.len() <= v.len() {
+                            if &v[i..i + le.len()] == le {
+                                out.push(v[start..i].to_vec());
+                                i += le.len();
+                                start = i;
+                            } else {
+                                i += 1;
+                            }
+                        }
+                        if start < v.len() {
+                            out.push(v[start..].to_vec());
+                        }
+                        out.sort();
+                        out
+                    };
+                    let (a, b) = (split(expected), split(&got));
+                    if a != b {
+                        let missing = a.iter().filter(|l| !b.contains(l)).count();
+                        res.violate(
+                            "lines-lost-or-duplicated",
+                            format!("C01/lines-lost-or-duplicated/clock-set-back/{facts}"),
+                            format!(
+                                "{when}: {} lines were accepted, {} are in the files ({missing} of the accepted ones in none of them); files {:?}",
+                                a.len(),
+                                b.len(),
+                                obs.names()
+                            ),
+                        );
+                        return false;
+                    }
+                    res.count("comparisons_as_multiset_clock_set_back", 1);
+                    return true;
+                }
                 if let Some(d) = flw::diff_bytes(expected, &got) {
                     res.violate(
                         "stream-mismatch",
